@@ -189,6 +189,13 @@ def semantic_check(case, r: Result, allow_index_error=False, total=False):
                 _SHARED.visit(ast.parse("Select(ds, lambda e: Select(e.jets, lambda j: (e.x, j.y)[5]))", mode="eval").body)
             except FuncADLIndexError:
                 pass
+            # ... also from inside a lambda that was being applied at that moment, whose parameters are spelled like the free
+            # names of the queries that follow (nothing of the failed query may linger on)
+            for text in ("Select(ds, lambda e: (lambda k0: (e.x, e.y)[5])(0))", "Select(ds, lambda e: (lambda ds: (e.x, ds)[5])(e.y))"):
+                try:
+                    _SHARED.visit(ast.parse(text, mode="eval").body)
+                except FuncADLIndexError:
+                    pass
         simplifier = _SHARED
         r.labels.append("simplifier-instance-used-before")
     else:
@@ -200,6 +207,16 @@ def semantic_check(case, r: Result, allow_index_error=False, total=False):
         # for it: then the simplifier's dedicated index error is its documented (C18) behaviour, not a failure
         variable_index = any(isinstance(n, ast.Subscript) and isinstance(n.value, (ast.Tuple, ast.List)) and not isinstance(n.slice, (ast.Constant, ast.Slice))
                              for n in ast.walk(tree))
+        if simplifier is _SHARED:
+            # nothing of the refused query may linger on in the transformer: a later query with a FREE variable spelled like one
+            # of its lambda parameters keeps that variable (a non-constant selector is left as it is)
+            for nm in sorted({a.arg for lam in ast.walk(tree) if isinstance(lam, ast.Lambda) for a in lam.args.posonlyargs + lam.args.args + lam.args.kwonlyargs}):
+                if nm in ("e_", "ds"):
+                    continue
+                probe = simplifier.visit(ast.parse(f"Select(ds, lambda e_: (e_.a, e_.b)[{nm}])", mode="eval").body)
+                if ast.unparse(probe.args[1].body) != f"(e_.a, e_.b)[{nm}]" and not any(isinstance(n, ast.Name) and n.id == nm for n in ast.walk(probe)):
+                    r.fail(f"after the index error for {case['src']} the same transformer turned Select(ds, lambda e_: (e_.a, e_.b)[{nm}]) into {ast.unparse(probe)}")
+                    return tree, None, expect
         if allow_index_error or variable_index:
             r.labels.append("FuncADLIndexError")
             return tree, None, expect
